@@ -360,6 +360,9 @@ def run(ctx):
     drows = [r for r in effect_rows(ctx, dec, GenRule(ctx, RS), md) if r.returns]
     pdata = "p:" + dec.params()[0]
     REV = (T("reversed", DEC), T("slice", DEC, "", "", "-1"), T("list", T("star", T("reversed", DEC))), T("reversed", T("list", DEC)))
+    # the same walk by index: for i in range(len(D) - 1, -1, -1) / reversed(range(len(D)))
+    LEN = T("len", DEC)
+    REV_IDX = (T("range", T("sub", LEN, "1"), "-1", "-1"), T("reversed", T("range", LEN)), T("reversed", T("range", "0", LEN)), T("slice", T("range", LEN), "", "", "-1"))
     it_rows = [r for r in drows if r.events("call")]
     ctx.sites(R4, len(it_rows), 1, "rows of MultiDecoder.decompress that decode")
     seen = set()
@@ -372,10 +375,13 @@ def run(ctx):
         c = calls[0]
         loops = c[-1][1:] if isinstance(c[-1], tuple) and c[-1][:1] == ("in",) else ()
         ok_order = len(loops) == 1 and loops[0] in REV
+        by_index = len(loops) == 1 and loops[0] in REV_IDX
+        ok_order = ok_order or by_index
         ctx.ob(R4, dec.qual, f"the decoders are applied in the reverse of header order (iterates {loops[0][:50] if loops else 'nothing'})", ok_order,
                "" if ok_order else "codings are undone in the order they were applied: gzip-then-deflate bodies come out as garbage", witness=r.witness(), node=dec.node)
         I = loops[0] if loops else "?"
-        ok_chain = c[1] == f"each({I}).decompress" and c[2] == pdata and r.ret == T(f"each({I}).decompress", pdata) and len(calls) == 1
+        elem = T("idx", DEC, T("each", I)) if by_index else f"each({I})"
+        ok_chain = c[1] == f"{elem}.decompress" and c[2] == pdata and r.ret == T(f"{elem}.decompress", pdata) and len(calls) == 1
         ctx.ob(R4, dec.qual, "each decoder consumes the previous decoder's output and the last output is returned", ok_chain, f"calls {calls}, returns {r.ret}", witness=r.witness(), node=dec.node)
     ini = m.method(md, "__init__")
     irows = [r for r in effect_rows(ctx, ini, GenRule(ctx, RS, pure_self=("_get_decoder",)), md) if r.returns]
@@ -386,7 +392,13 @@ def run(ctx):
         v = st_[-1][3] if st_ else ""
         op, args = destruct(v)
         SPL = T("split", pm, K(","))
-        ok = ok and op in ("listcomp", "list") and SPL in v and (T("_get_decoder", T("strip", T("each", SPL))) in v)
+        ELT = T("_get_decoder", T("strip", T("each", SPL)))
+        if op == "list":
+            # built by appending in a loop over the codings: exactly one element per coding, in order
+            okl = list(args) == [T("rep", ELT, SPL)] or list(args) == [T("star", T("listcomp", ELT, SPL))] or list(args) == [T("star", T("gen", ELT, SPL))]
+        else:
+            okl = True
+        ok = ok and op in ("listcomp", "list") and SPL in v and (ELT in v) and okl
     ctx.ob(R4, ini.qual, "decoders are listed in header order, one per comma-separated coding", ok, "; ".join(str(r.events("store"))[:100] for r in irows[:1]))
     fl = m.method(md, "flush")
     frows = [r for r in effect_rows(ctx, fl, GenRule(ctx, RS), md) if r.returns]
@@ -407,10 +419,20 @@ def run(ctx):
                     guards[s.target.id][g] = astq.text(s.value)
     gd = m.func(f"{RS}._get_decoder")
     gg = {}
-    for n in astq.walk_fn(gd.node):
-        if isinstance(n, ast.If) and isinstance(n.test, ast.BoolOp) and isinstance(n.test.op, ast.And):
-            parts = [astq.text(v) for v in n.test.values]
-            gg[parts[0]] = (parts[1:], astq.text(n.body[0]))
+    from ..rows import helper_closure as _hc5
+    for q_ in sorted(_hc5(m, [gd], stop=("MultiDecoder",))):
+        f_ = m.funcs.get(q_)
+        if f_ is None or f_.cls is not None and q_ != gd.qual:
+            continue
+        for n in astq.walk_fn(f_.node):
+            if not isinstance(n, ast.If):
+                continue
+            # `if <guard> and mode == "br": return BrotliDecoder()`  or  `if <guard>: table["br"] = BrotliDecoder`
+            parts = [astq.text(v) for v in n.test.values] if isinstance(n.test, ast.BoolOp) and isinstance(n.test.op, ast.And) else [astq.text(n.test)]
+            for i_, g_ in enumerate(parts):
+                rest = parts[:i_] + parts[i_ + 1:] + [astq.text(b_) for b_ in n.body]
+                prev = gg.get(g_, ([], ""))
+                gg[g_] = (prev[0] + rest, prev[1] or astq.text(n.body[0]))
     for g, name, mode in (("brotli is not None", "br", "'br'"), ("HAS_ZSTD", "zstd", "'zstd'")):
         ok1 = g in guards["CONTENT_DECODERS"] and name in guards["CONTENT_DECODERS"][g]
         ok2 = g in guards["DECODER_ERROR_CLASSES"]
@@ -460,12 +482,26 @@ def run(ctx):
     for w in wl:
         t = w.test
         parts = [astq.text(v) for v in t.values] if isinstance(t, ast.BoolOp) and isinstance(t.op, ast.Or) else []
-        ok = len(parts) == 2 and "not is_fp_closed(self._fp)" in parts and f"len(self.{bf}) > 0" in parts
+        B_ = f"self.{bf}"
+        nonempty = {f"len({B_}) > 0", f"len({B_}) != 0", f"len({B_}) >= 1", f"0 < len({B_})", f"len({B_})", f"bool(len({B_}))", f"not len({B_}) == 0"}
+        bq = m.classes.get(f"{RS}.BytesQueueBuffer")
+        if bq is not None and "__len__" in bq.methods and "__bool__" not in bq.methods:
+            nonempty |= {B_, f"bool({B_})"}  # truthiness of the queue is its __len__
+        ok = len(parts) == 2 and "not is_fp_closed(self._fp)" in parts and bool(nonempty & set(parts))
         ctx.ob(R7, sf.qual, f"loop condition `{astq.text(t)}`", ok, "" if ok else "the loop can stop while decoded bytes are still queued (or spin after the end)", node=w)
         brk = [n for n in ast.walk(w) if isinstance(n, (ast.Break, ast.Return))]
         ctx.ob(R7, sf.qual, "no early exit from the loop", not brk, node=w)
         calls_ = [c for c in astq.calls(w) if astq.call_text(c) == "self.read"]
-        ok = len(calls_) == 1 and astq.text(astq.kwarg(calls_[0], "amt")) == "amt" and astq.text(astq.kwarg(calls_[0], "decode_content")) == "decode_content"
+        rd_params = m.method(HR, "read").params()
+        bound = {}
+        if len(calls_) == 1:
+            for i_, a_ in enumerate(calls_[0].args):
+                if i_ < len(rd_params) and not isinstance(a_, ast.Starred):
+                    bound[rd_params[i_]] = astq.text(a_)
+            for k_ in calls_[0].keywords:
+                if k_.arg:
+                    bound[k_.arg] = astq.text(k_.value)
+        ok = len(calls_) == 1 and bound.get("amt") == "amt" and bound.get("decode_content") == "decode_content"
         ctx.ob(R7, sf.qual, "each iteration reads through read(amt, decode_content)", ok)
     # readinto / __iter__ / data use the same readers
     ri = m.method(f"{RS}.BaseHTTPResponse", "readinto")
@@ -496,7 +532,8 @@ def _run_r9(ctx):
     dd = f"{RS}.DeflateDecoder"
     dec = m.method(dd, "decompress")
     pd = "p:" + dec.params()[0]
-    rows = effect_rows(ctx, dec, GenRule(ctx, RS, raising={"decompress": "zlib.error"}, field_consts={}), dd)
+    from ..rows import helper_closure as _hc9
+    rows = effect_rows(ctx, dec, GenRule(ctx, RS, raising={"decompress": "zlib.error"}, field_consts={}, inline=set(_hc9(m, [dec])) - {dec.qual}), dd)
     trial_flag = None
     # the trial flag: the boolean field tested first thing and set False when the trial ends
     for r in rows:
@@ -523,7 +560,10 @@ def _run_r9(ctx):
         last_flag = [e[3] for e in r.events("store") if e[1] == "self" and e[2] == trial_flag]
         calls = r.events("call")
         fault = r.st.ts.get("fault")
-        if fault is not None and fault[0] == "self.decompress":
+        # the fresh raw-deflate object installed on this path (calls on it are the replay, by whatever route they are made)
+        fresh = [e[3] for e in r.events("store") if e[1] == "self" and e[2] == "_obj"]
+        fresh_calls = {f"{t_}.decompress" for t_ in fresh}
+        if fault is not None and (fault[0] == "self.decompress" or fault[0] in fresh_calls):
             continue  # the replay itself failing: the stream is corrupt either way
         out_truth = None
         for k, v in r.st.facts.items():
@@ -540,10 +580,10 @@ def _run_r9(ctx):
             ok = (not last_flag or last_flag[-1] != "False") and any(b in stores and (stores[b] in acc_terms or norm(stores[b]) in acc_terms) for b in bufs)
             ctx.ob(R9, dec.qual, "no output yet: the trial phase continues and the input is kept", ok,
                    "" if ok else f"stores {stores}: the trial ends (or the bytes are dropped) before zlib could judge the header - a raw-deflate body whose first piece is one byte then fails with a header error", witness=r.witness(), node=dec.node)
-        elif fault is not None and fault[1] == "zlib.error" and not any(c[1] == "self._obj.decompress" for c in calls[1:]) and not any(c[1] == "self.decompress" for c in calls):
+        elif fault is not None and fault[1] == "zlib.error" and not any(c[1] == "self._obj.decompress" for c in calls[1:]) and not any(c[1] == "self.decompress" or c[1] in fresh_calls for c in calls):
             ctx.ob(R9, dec.qual, "a header error in the trial phase falls back to raw deflate", r.returns and False, f"outcome {r.out}, calls {calls}: the zlib error escapes (or nothing is re-decoded)", witness=r.witness(), node=dec.node)
         elif fault is not None or any(c[1] == "self.decompress" for c in calls):
-            replay = [c for c in calls if c[1] in ("self.decompress",)] + [c for c in calls[1:] if c[1] == "self._obj.decompress"]
+            replay = [c for c in calls if c[1] in ("self.decompress",) or c[1] in fresh_calls] + [c for c in calls[1:] if c[1] == "self._obj.decompress"]
             if not replay:
                 continue
             arg = replay[-1][2] if len(replay[-1]) > 2 else "?"
